@@ -464,6 +464,8 @@ func checkC10(r *Report) {
 	}
 	parsedNumberFitsRule(r, p, "C10.d/PARSED-NUMBER-FITS", "semver")
 	firstSepRule(r, p, "C10.e/FIRST-ELEMENT-SEP")
+	nPN := printNarrowRule(r, p, "C10.f/PRINT-NOT-NARROWED", "semver")
+	r.floor("C10.f/PRINT-NOT-NARROWED", "integer conversions whose result is formatted, in package semver", nPN, 1)
 	// positive control for FOLD-AGREE: the NuGet fold in Canon must be seen
 	if f := p.lookupFn("(*semver.Version).Canon"); f != nil {
 		r.floor("C10.b/FOLD-AGREE", "fields case-folded by (*Version).Canon", len(foldedFields(p, f, pkg)), 1)
@@ -1635,6 +1637,90 @@ func textFoldedRule(r *Report, p *Prog, rule, structName string) int {
 						what += " (" + raw.Name() + " at " + p.pos(raw.Pos()) + ")"
 					}
 					r.bad(rule, key, p.pos(s.Pos()), "the parser keeps "+what+" in the parsed version without lower-casing it: PEP 440 treats letters case-insensitively, so two spellings of the same version compare unequal and have different canonical strings")
+				}
+			}
+		}
+	}
+	return n
+}
+
+// printNarrowRule (C10.f PRINT-NOT-NARROWED): version numbers are held in
+// 64-bit values on every platform. A printer that converts one to a narrower
+// integer before formatting it (fmt.Sprint(int(v)) where int has 32 bits)
+// prints a truncated, possibly negative number: the canonical string then
+// denotes another version or does not parse. Decided under the sizes of the
+// analysed architecture (the thorough tier repeats the rules for GOARCH=386):
+// no integer conversion whose result is formatted (fmt.*, strconv.Itoa /
+// FormatInt / AppendInt) narrows its operand.
+func printNarrowRule(r *Report, p *Prog, rule string, pkgs ...string) int {
+	sizes := types.SizesFor("gc", "amd64")
+	if archOverride != "" {
+		if s := types.SizesFor("gc", archOverride); s != nil {
+			sizes = s
+		}
+	}
+	formatted := func(v ssa.Value) bool {
+		if v.Referrers() == nil {
+			return false
+		}
+		for _, u := range *v.Referrers() {
+			switch x := u.(type) {
+			case *ssa.MakeInterface:
+				return true // handed to a fmt function as an operand
+			case *ssa.Call:
+				n := staticCalleeName(x)
+				if n == "strconv.Itoa" || n == "strconv.FormatInt" || n == "strconv.AppendInt" || n == "strconv.FormatUint" {
+					return true
+				}
+			case *ssa.Convert:
+				if x.Referrers() != nil {
+					for _, u2 := range *x.Referrers() {
+						if c, ok := u2.(*ssa.Call); ok && strings.HasPrefix(staticCalleeName(c), "strconv.") {
+							return true
+						}
+					}
+				}
+			}
+		}
+		return false
+	}
+	n := 0
+	for _, f := range p.Funcs {
+		if f.Pkg == nil || f.Blocks == nil || f.Synthetic != "" {
+			continue
+		}
+		in := false
+		for _, pk := range pkgs {
+			if f.Pkg.Pkg.Path() == modPrefix+pk {
+				in = true
+			}
+		}
+		if !in {
+			continue
+		}
+		per := 0
+		for _, b := range f.Blocks {
+			for _, ins := range b.Instrs {
+				c, ok := ins.(*ssa.Convert)
+				if !ok || !formatted(c) {
+					continue
+				}
+				sb, ok1 := c.X.Type().Underlying().(*types.Basic)
+				db, ok2 := c.Type().Underlying().(*types.Basic)
+				if !ok1 || !ok2 || sb.Info()&types.IsInteger == 0 || db.Info()&types.IsInteger == 0 {
+					continue
+				}
+				if _, isConst := c.X.(*ssa.Const); isConst {
+					continue
+				}
+				n++
+				per++
+				key := fmt.Sprintf("%s: formatted integer #%d keeps its width", fnKey(f), per)
+				ss, ds := sizes.Sizeof(sb), sizes.Sizeof(db)
+				if ds < ss {
+					r.bad(rule, key, p.pos(c.Pos()), fmt.Sprintf("a %d-bit %s is converted to a %d-bit %s and then formatted: a number of 2^%d or more is printed truncated (as a negative number), so the canonical string of such a version denotes another version or does not parse", ss*8, c.X.Type(), ds*8, c.Type(), ds*8-1))
+				} else {
+					r.ok(rule, key, p.pos(c.Pos()), fmt.Sprintf("%s (%d bits) to %s (%d bits)", c.X.Type(), ss*8, c.Type(), ds*8))
 				}
 			}
 		}
